@@ -1,6 +1,7 @@
 import RdsProofs.Reach
 import RdsProofs.C05Proofs
 import RdsProofs.WFProofs
+import RdsProofs.AuditC05C16
 /-!
 # Property C05 — no memory-unsafe or undefined behaviour (logic part: index arithmetic)
 
@@ -17,6 +18,10 @@ overflow, libc behaviour and the allocator are exercised by sanitizers, not prov
 -- THEOREM: RDS.C05_af_index
 -- THEOREM: RDS.C05_length
 -- THEOREM: RDS.C05_no_oob_reachable
+-- THEOREM: RDS.ac5_process_mirror
+-- THEOREM: RDS.C05_no_oob_process
+-- THEOREM: RDS.C05_no_oob_step
+-- THEOREM: RDS.C05_af_index_process
 namespace RDS
 
 /-- in every reachable state, every cell a delivered group addresses exists in the addressed buffer -/
